@@ -200,7 +200,12 @@ func runC13(r *ev.Run) {
 						prev, prevTie, lastP = full, tie, p
 					}
 					for _, v := range genVariants(rng, full, m, ids, 2) {
-						got, err := applyOpts(s.search(o).WithQuery(cloneF32(q)), v).Execute()
+						bq := applyOpts(s.search(o).WithQuery(cloneF32(q)), v)
+						got, err := bq.Execute()
+						if err == nil && rng.IntN(4) == 0 {
+							checkReexecute(rep, "ivf", bq, got)
+							r.Count("probes:re-executed-search-object", 1)
+						}
 						if err != nil {
 							rep("ivf.search-error", err.Error())
 							continue
